@@ -113,6 +113,7 @@ func (x *Unit) run() {
 	for _, name := range sortedKeys(x.eng.ghostDecls) {
 		x.ghostGet(st, name)
 	}
+	x.fact(Cmp(">=", x.ghostGet(st, "now").T, IntLit(0)))
 	for k, v := range st.ghost {
 		x.entry.ghost[k] = v
 	}
@@ -168,7 +169,7 @@ func (x *Unit) run() {
 			g := x.specEval(ret, cl.Expr, ec)
 			x.oblige(ret, "ensures", clauseLabel(cl, i), g.T, nil)
 		}
-		x.frameCheck(ret, ec)
+		x.frameCheck(ret, "frame", nil)
 	} else if len(x.block.ClausesOf("ensures")) > 0 && len(x.unsupported) == 0 {
 		// no normal exit at all: contracts about results are vacuous; say so loudly
 		x.unsupported = append(x.unsupported, "function has no reachable normal exit")
@@ -234,7 +235,17 @@ func (x *Unit) contractCtx(st *State, fr *frame) *specCtx {
 }
 
 // frameCheck: everything outside the modifies clauses is unchanged at exit (pre-existing objects only).
-func (x *Unit) frameCheck(ret *State, ec *specCtx) {
+// frameGoal: location family `key` must agree with the expected (entry + declared modifications) version.
+type frameGoal struct {
+	key     string
+	idxSort Sort
+	// formula for index idx (empty idxSort: a plain equality)
+	at func(idx T) T
+}
+
+// frameGoals computes, for state st, what "everything outside the modifies clauses is unchanged since entry" means.
+// ok=false: the function declares no frame (no modifies clause, or modifies *).
+func (x *Unit) frameGoals(st *State) (goals []frameGoal, ok bool) {
 	hasMod := false
 	for _, cl := range x.block.Clauses {
 		if cl.Kind == "modifies" {
@@ -242,71 +253,101 @@ func (x *Unit) frameCheck(ret *State, ec *specCtx) {
 		}
 	}
 	if !hasMod {
-		return
+		return nil, false
 	}
-	// expected = entry state with the declared locations overwritten by their exit values
+	// expected = entry state with the declared locations overwritten by their current values
 	exp := x.entry.clone()
-	all := false
 	for _, cl := range x.block.Clauses {
 		if cl.Kind != "modifies" {
 			continue
 		}
 		for _, m := range cl.Mods {
-			if id, ok := m.(*ast.Ident); ok && id.Name == "*" {
-				all = true
-				continue
+			if id, isId := m.(*ast.Ident); isId && id.Name == "*" {
+				return nil, false
 			}
 			c0 := x.contractCtx(x.entry, nil)
 			lv := x.specLV(x.entry, m, c0)
 			if lv == nil {
 				continue
 			}
-			x.writeLV(exp, lv, x.readLV(ret, lv))
+			x.writeLV(exp, lv, x.readLV(st, lv))
 		}
 	}
-	if all {
-		return
+	if st.epoch != x.entry.epoch {
+		goals = append(goals, frameGoal{key: "heap (a callee with 'modifies *' was used)", at: func(T) T { return False }})
+		return goals, true
 	}
-	if ret.epoch != x.entry.epoch {
-		x.oblige(ret, "frame", "heap", False, nil).HeapNote = "a callee with 'modifies *' was used; the frame cannot be established"
-		return
-	}
-	for _, k := range sortedKeys(ret.heap) {
-		if strings.HasPrefix(k, "atomic:") && false {
-			continue
-		}
-		h := ret.heap[k]
-		want, ok := exp.heap[k]
-		if !ok {
+	for _, k := range sortedKeys(st.heap) {
+		h := st.heap[k]
+		want, have := exp.heap[k]
+		if !have {
 			want = x.epochLookup(x.entry.epoch, k, h.Sort)
 		}
 		if want.S == h.S {
 			continue
 		}
-		r := x.fresh("frameref", SInt)
-		goal := Imp(And(Cmp(">", r, IntLit(0)), Cmp("<=", x.proot(r), x.entry.alloc)), Eq(Select(h, r), Select(want, r)))
-		x.oblige(ret, "frame", k, goal, nil)
+		hh, ww := h, want
+		goals = append(goals, frameGoal{key: k, idxSort: SInt, at: func(r T) T {
+			return Imp(And(Cmp(">", r, IntLit(0)), Cmp("<=", x.proot(r), x.entry.alloc)), Eq(Select(hh, r), Select(ww, r)))
+		}})
 	}
-	for _, k := range sortedKeys(ret.ghost) {
-		g := ret.ghost[k]
-		if k == "now" || k == "ev_spawn" || strings.HasPrefix(k, "res:") || strings.HasPrefix(k, "let:") {
+	for _, k := range sortedKeys(st.ghost) {
+		g := st.ghost[k]
+		if k == "now" || k == "ev_spawn" || strings.HasPrefix(k, "res:") || strings.HasPrefix(k, "let:") || strings.HasPrefix(k, "calls:") {
 			continue
 		}
-		want, ok := exp.ghost[k]
-		if !ok {
-			want, ok = x.entry.ghost[k]
-			if !ok {
+		want, have := exp.ghost[k]
+		if !have {
+			want, have = x.entry.ghost[k]
+			if !have {
 				continue
 			}
 		}
 		if want.S == g.S {
 			continue
 		}
-		if _, isMap := x.u.mapKV[g.Sort]; isMap {
-			kq := x.fresh("framekey", x.u.mapKV[g.Sort][0])
-			x.oblige(ret, "frame", "ghost "+k, Eq(Select(x.u.MapVal(g.T), kq), Select(x.u.MapVal(want.T), kq)), nil)
+		gg, ww := g, want
+		if kv, isMap := x.u.mapKV[g.Sort]; isMap {
+			goals = append(goals, frameGoal{key: "ghost " + k, idxSort: kv[0], at: func(kq T) T {
+				return Eq(Select(x.u.MapVal(gg.T), kq), Select(x.u.MapVal(ww.T), kq))
+			}})
 		} else {
-			x.oblige(ret, "frame", "ghost "+k, Eq(g.T, want.T), nil)
+			goals = append(goals, frameGoal{key: "ghost " + k, at: func(T) T { return Eq(gg.T, ww.T) }})
 		}
+	}
+	return goals, true
+}
+
+// frameCheck: everything outside the modifies clauses is unchanged at st (pre-existing objects only).
+func (x *Unit) frameCheck(st *State, kind string, n ast.Node) {
+	goals, ok := x.frameGoals(st)
+	if !ok {
+		return
+	}
+	for _, g := range goals {
+		var idx T
+		if g.idxSort != "" {
+			idx = x.fresh("frameidx", g.idxSort)
+		}
+		x.oblige(st, kind, g.key, g.at(idx), n)
+	}
+}
+
+// frameAssume: assume the frame at a loop head (it is checked on entry and at the back edge).
+func (x *Unit) frameAssume(st *State) {
+	goals, ok := x.frameGoals(st)
+	if !ok {
+		return
+	}
+	for _, g := range goals {
+		if g.idxSort == "" {
+			x.assume(st, g.at(T{}))
+			continue
+		}
+		q := T{x.nfreshName("fr"), g.idxSort}
+		x.binders++
+		body := g.at(q)
+		x.binders--
+		x.assume(st, T{fmt.Sprintf("(forall ((%s %s)) %s)", q.S, q.Sort, body.S), SBool})
 	}
 }
